@@ -28,6 +28,7 @@ func init() {
 }
 
 func c02Start() {
+	caseTimeout = 100 * time.Second // the end-to-end cases wait for the real sync client (period 1 s, reconnects)
 	var err error
 	if c02A, err = busStart("RA", "", nil); err != nil {
 		panic("C02: " + err.Error())
@@ -62,6 +63,12 @@ func c02Stop() {
 		c02B.stop()
 		c02B = nil
 	}
+	for _, b := range []*busServer{c02EA, c02EB} {
+		if b != nil {
+			b.stop()
+		}
+	}
+	c02EA, c02EB = nil, nil
 }
 
 func c02ID(prefix, id string) string {
@@ -131,7 +138,120 @@ func c02Dump(nc *nats.Conn, prefix string) string {
 	return joinListSep(out, ";")
 }
 
+// ---- end-to-end cases "E;tok;..." : the REAL sync client (client.NewSyncClient under a Manager on the downstream
+// instance, period 1 s, real-time forwarding, NATS reconnect handling) between a second pair of instances.
+//   a:<op> / b:<op>  as above;  x  the upstream instance is stopped and started again on the same file and ports;
+//   d / e  the sync node is disabled / enabled;  w  wait until both sides show the same subtree (at most 30 s)
+var c02EA, c02EB *busServer
+
+func c02EStart() {
+	var err error
+	if c02EA, err = busStart("RA", "", func(nc *nats.Conn) []client.RunStop {
+		return []client.RunStop{client.NewManager(nc, client.NewSyncClient, nil)}
+	}); err != nil {
+		panic("C02 E: " + err.Error())
+	}
+	if c02EB, err = busStart("RB", "", nil); err != nil {
+		panic("C02 E: " + err.Error())
+	}
+	now := time.Now()
+	// the node's points first, then the edge that makes it exist: the manager constructs the client from a complete
+	// configuration (points written between construction and subscription are the open C08 finding)
+	_ = client.SendNodePoints(c02EA.nc, "sy1", data.Points{{Type: data.PointTypeDescription, Text: "e2e", Time: now}, {Type: data.PointTypeURI, Text: c02EB.opts.NatsServer, Time: now},
+		{Type: data.PointTypePeriod, Value: 1, Time: now}}, true)
+	_ = client.SendEdgePoints(c02EA.nc, "sy1", "RA", data.Points{{Type: data.PointTypeTombstone, Value: 0, Time: now}, {Type: data.PointTypeNodeType, Text: data.NodeTypeSync, Time: now}}, true)
+	deadline := time.Now().Add(20 * time.Second)
+	for time.Now().Before(deadline) {
+		if ns, err := client.GetNodes(c02EB.nc, "all", "RA", "", false); err == nil && len(ns) > 0 {
+			return
+		}
+		time.Sleep(50 * time.Millisecond)
+	}
+	panic("C02 E: the downstream device never appeared upstream")
+}
+
+func c02ERun(c string) string {
+	if c02EA == nil {
+		c02EStart()
+	}
+	c02Cases++
+	prefix := fmt.Sprintf("e%d-", c02Cases)
+	c02Starts = nil
+	send := func(nc *nats.Conn, op string) string {
+		f := strings.Split(op, ":")
+		pts := parseSpts(f[len(f)-1])
+		for i := range pts {
+			pts[i].Time = time.Unix(0, c02Starts[len(c02Starts)-1]+int64(i))
+		}
+		var err error
+		if f[0] == "np" {
+			err = client.SendNodePoints(nc, c02ID(prefix, string(unhx(f[1]))), pts, true)
+		} else {
+			err = client.SendEdgePoints(nc, c02ID(prefix, string(unhx(f[1]))), c02ID(prefix, string(unhx(f[2]))), pts, true)
+		}
+		if err != nil {
+			return "err"
+		}
+		return "ok"
+	}
+	dumpOn := func(b *busServer) string {
+		saved := c02A
+		_ = saved
+		return c02Dump(b.nc, prefix)
+	}
+	var acc []string
+	for _, tok := range strings.Split(strings.Fields(c)[0], ";") {
+		now := time.Now().UnixNano()
+		if n := len(c02Starts); n > 0 && now <= c02Starts[n-1]+16 {
+			now = c02Starts[n-1] + 17
+			time.Sleep(time.Microsecond)
+		}
+		c02Starts = append(c02Starts, now)
+		switch {
+		case tok == "E":
+		case tok == "x":
+			o := c02EB.opts
+			c02EB.halt()
+			nb, err := busStartOpts(o, nil)
+			if err != nil {
+				return "RESTART " + err.Error()
+			}
+			c02EB = nb
+			acc = append(acc, "x")
+		case tok == "d" || tok == "e":
+			v := 1.0
+			if tok == "e" {
+				v = 0
+			}
+			_ = client.SendNodePoints(c02EA.nc, "sy1", data.Points{{Type: data.PointTypeDisabled, Value: v, Time: time.Now()}}, true)
+			acc = append(acc, tok)
+		case tok == "w":
+			deadline := time.Now().Add(30 * time.Second)
+			for time.Now().Before(deadline) {
+				a, b := strings.Split(dumpOn(c02EA), ";"), strings.Split(dumpOn(c02EB), ";")
+				sort.Strings(a)
+				sort.Strings(b)
+				if strings.Join(a, ";") == strings.Join(b, ";") && !strings.Contains(a[0], "ERR") {
+					break
+				}
+				time.Sleep(200 * time.Millisecond)
+			}
+			acc = append(acc, "w")
+		case strings.HasPrefix(tok, "a:"):
+			acc = append(acc, send(c02EA.nc, tok[2:]))
+		case strings.HasPrefix(tok, "b:"):
+			acc = append(acc, send(c02EB.nc, tok[2:]))
+		default:
+			panic("C02 E: bad token " + tok)
+		}
+	}
+	return strings.Join(acc, ",") + " ## A=" + dumpOn(c02EA) + " ## B=" + dumpOn(c02EB)
+}
+
 func c02Run(c string) string {
+	if strings.HasPrefix(c, "E;") {
+		return c02ERun(c)
+	}
 	c02Cases++
 	if c02Cases%150 == 0 {
 		oa, ob, ol, or := c02A, c02B, c02Local, c02Remote
@@ -184,9 +304,67 @@ func c02Run(c string) string {
 	return strings.Join(acc, ",") + " ## A=" + c02Dump(c02A.nc, prefix) + " ## B=" + c02Dump(c02B.nc, prefix)
 }
 
+// c02EGen: an end-to-end history: a shared base built downstream, then writes and node creations on both sides around a
+// link interruption (upstream restarted, or the sync node disabled and enabled again), then wait for convergence.
+// No deletions, mirrors or bare nodes here (those are the hash-design findings of the pass-level cases).
+func c02EGen(r *rand.Rand, kind int) string {
+	clock := int64(100)
+	tick := func() int64 { clock += 2; return clock }
+	nt := func(t string) string {
+		return fmt.Sprintf("%s,-,0,-,%d,0,-,-+%s,-,0,%s,%d,0,-,-", hxs("tombstone"), tick(), hxs("nodeType"), hxs(t), tick())
+	}
+	pt := func() string {
+		return fmt.Sprintf("%s,%s,%s,%s,%d,0,-,-", hxs(pick(r, []string{"value", "description", "level"})), hxs(pick(r, []string{"", "1"})),
+			valStr(float64(r.Intn(9))), hxs(pick(r, []string{"", "x", "y"})), tick())
+	}
+	toks := []string{"E", "a:ep:" + hxs("G") + ":" + hxs("RA") + ":" + nt("group")}
+	nodes := []string{"G"}
+	for k := 1; k <= 1+r.Intn(3); k++ {
+		id := fmt.Sprintf("n%d", k)
+		toks = append(toks, "a:ep:"+hxs(id)+":"+hxs(pick(r, nodes))+":"+nt("device"), "a:np:"+hxs(id)+":"+pt())
+		nodes = append(nodes, id)
+	}
+	toks = append(toks, "w")
+	writes := func(sides []string) {
+		fresh := 0
+		for s := 0; s < 1+r.Intn(4); s++ {
+			side := pick(r, sides)
+			if r.Intn(4) == 0 {
+				fresh++
+				id := fmt.Sprintf("%s%d%d", side, len(toks), fresh)
+				toks = append(toks, side+":ep:"+hxs(id)+":"+hxs(pick(r, nodes))+":"+nt("variable"), side+":np:"+hxs(id)+":"+pt())
+			} else {
+				toks = append(toks, side+":np:"+hxs(pick(r, nodes))+":"+pt())
+			}
+		}
+	}
+	switch kind % 3 {
+	case 0: // upstream restarted, writes downstream meanwhile and on both sides afterwards
+		toks = append(toks, "x")
+		writes([]string{"a"})
+		writes([]string{"a", "b"})
+	case 1: // sync switched off, both sides diverge, switched on again
+		toks = append(toks, "d")
+		writes([]string{"a", "b"})
+		toks = append(toks, "e")
+	default: // no interruption: real-time forwarding and the periodic pass
+		writes([]string{"a", "b"})
+	}
+	toks = append(toks, "w")
+	return strings.Join(toks, ";")
+}
+
 func c02Gen(r *rand.Rand, n int, tier string) []string {
 	var out []string
+	ne := 3
+	if tier == "thorough" {
+		ne = 25
+	}
 	for i := 0; i < n; i++ {
+		if i < ne {
+			out = append(out, c02EGen(r, i))
+			continue
+		}
 		clock := int64(100)
 		tick := func() int64 { clock += 2; return clock }
 		// a node is created the way client.SendNode does it: a tombstone-0 edge point next to the node type;
